@@ -6,7 +6,8 @@ claims = json.load(open(os.path.join(here, "tools", "claims.json")))
 cd = os.path.join(here, "tools", "claims.d")
 if os.path.isdir(cd):
     for f in sorted(os.listdir(cd)):
-        if f.endswith(".json"):
+        ready = set(open(os.path.join(here, "tools", "ready.txt")).read().split())
+        if f.endswith(".json") and f[:-5] in ready:
             claims["claimed"][f[:-5]] = json.load(open(os.path.join(cd, f)))
 props = [json.loads(l)["id"] for l in open(os.path.join(here, "properties.jsonl"))]
 checks, na = [], []
